@@ -412,6 +412,62 @@ fn host_units(tier: Tier) -> Vec<(usize, usize)> {
     vec![(0, tier.pick(4, 4)), (5, tier.pick(3, 4)), (4, tier.pick(3, 4)), (6, tier.pick(3, 4))]
 }
 
+/// Fill a table under a small memory limit until an insertion reports OutOfMemory: a failed
+/// insertion changes nothing, whatever step of the growth it failed at.
+fn oom_fill(limit: usize, mode: u64) -> Result<(), Diverge> {
+    let mut vm: Vm<()> = Vm::new(()).unwrap();
+    vm.runtime_data = RuntimeData::new(limit, 64, 16).map_err(|e| dv("oom/new", format!("{e:?}")))?;
+    let Ok(tg) = vm.init_table() else { return Ok(()) };
+    let tv = Value::Object(tg.into_inner());
+    vm.stack_push(tv).map_err(|e| dv("oom/push", format!("{e:?}")))?;
+    let mut tv2 = tv;
+    let table: &mut CaoLangTable = cao_lang::vm::get_table_mut(&mut tv2).unwrap();
+    let mut model: Vec<i64> = Vec::new();
+    let mut failures = 0;
+    for i in 0..100_000i64 {
+        let r = match mode {
+            0 => table.insert(Value::Integer(i), Value::Integer(i * 10)),
+            1 => table.append(Value::Integer(i * 10)),
+            _ => table.insert(Value::Integer(1_000_000 - i), Value::Integer(i * 10)),
+        };
+        let key = if mode == 2 { 1_000_000 - i } else { i };
+        match r {
+            Ok(()) => model.push(key),
+            Err(_) => {
+                failures += 1;
+                // the failed key is absent, everything else is as before
+                if table.len() != model.len() || table.keys().len() != model.len() || table.iter().count() != model.len() {
+                    return Err(dv("oom/len-after-failed-insert", format!("limit {limit} mode {mode}: after the failed insertion of key {key}: len() = {}, keys().len() = {}, iter().count() = {}, entries inserted successfully: {}", table.len(), table.keys().len(), table.iter().count(), model.len())));
+                }
+                if table.get(&Value::Integer(key)).is_some() {
+                    return Err(dv("oom/failed-key-present", format!("limit {limit} mode {mode}: the key {key} whose insertion failed reads as present")));
+                }
+                for (j, k) in model.iter().enumerate() {
+                    if table.nth_key(j) != Value::Integer(*k) || table.get(&Value::Integer(*k)).is_none() {
+                        return Err(dv("oom/entries-after-failed-insert", format!("limit {limit} mode {mode}: entry #{j} (key {k}) damaged by a failed insertion")));
+                    }
+                }
+                if failures == 3 {
+                    // the most recently inserted entry is what pop returns
+                    let want = model.pop();
+                    let got = table.pop().map_err(|e| dv("oom/pop", format!("{e:?}")))?;
+                    let want_v = want.map(|k| if mode == 2 { (1_000_000 - k) * 10 } else { k * 10 });
+                    if want_v.map(Value::Integer).unwrap_or(Value::Nil) != got {
+                        return Err(dv("oom/pop-after-failed-insert", format!("limit {limit} mode {mode}: pop returned {got:?}, the last successful insertion stored {want_v:?}")));
+                    }
+                    return Ok(());
+                }
+            }
+        }
+    }
+    Ok(())
+}
+
+fn oom_limits(tier: Tier) -> Vec<usize> {
+    let step = tier.pick(256, 64);
+    (0..tier.pick(160usize, 1200)).map(|i| 700 + i * step).collect()
+}
+
 impl Check for C07 {
     fn id(&self) -> &'static str {
         "C07"
@@ -419,7 +475,7 @@ impl Check for C07 {
     fn info(&self, tier: Tier) -> CheckInfo {
         let fams = families(tier);
         CheckInfo {
-            rule: "host seam: BFS over histories of insert(t,k,v) / append(t,v) / pop(t) / remove(t,k) on two tables of one real Vm, keys {0,1,2,7,1.5,\"a\" through two distinct string objects,\"b\",nil}, values {1,2,the other table / itself}, starting empty, pre-filled with 4 and 5 plain entries (first growth step within reach) and pre-filled with 5 entries chosen with the real hasher so that the rehash at the first growth step produces probe chains that wrap around the end of the new bucket array; in every state get/contains for every key through every equal key form and through &str, len, keys(), iter() order, nth_key(0..len+1), occupied-bucket count vs. a Vec<(key,value)> model; canonical state = keys vector + every bucket + capacity of both tables. Script seam: every sequence of table cards (SetProperty with 6 keys x 3 values, AppendTable, PopTable, dotted SetVar) on two mutually aliased tables up to the stated length, in main / a callee that receives the tables / a closure that captured them, followed by a read-out (Len, GetProperty for every key, dotted read, ForEach order, Get row for every index), against the reference interpreter. Non-trivial = aliasing present or first growth step passed (host) / distinct reference outcomes per chunk (script)".into(),
+            rule: "memory-limit seam: a table is filled (insert ascending / append / insert descending keys) under every memory limit of a sweep until an insertion reports OutOfMemory; after each of three failed insertions len, keys, iter, every stored entry and finally pop must be exactly as after the last successful insertion. host seam: BFS over histories of insert(t,k,v) / append(t,v) / pop(t) / remove(t,k) on two tables of one real Vm, keys {0,1,2,7,1.5,\"a\" through two distinct string objects,\"b\",nil}, values {1,2,the other table / itself}, starting empty, pre-filled with 4 and 5 plain entries (first growth step within reach) and pre-filled with 5 entries chosen with the real hasher so that the rehash at the first growth step produces probe chains that wrap around the end of the new bucket array; in every state get/contains for every key through every equal key form and through &str, len, keys(), iter() order, nth_key(0..len+1), occupied-bucket count vs. a Vec<(key,value)> model; canonical state = keys vector + every bucket + capacity of both tables. Script seam: every sequence of table cards (SetProperty with 6 keys x 3 values, AppendTable, PopTable, dotted SetVar) on two mutually aliased tables up to the stated length, in main / a callee that receives the tables / a closure that captured them, followed by a read-out (Len, GetProperty for every key, dotted read, ForEach order, Get row for every index), against the reference interpreter. Non-trivial = aliasing present or first growth step passed (host) / distinct reference outcomes per chunk (script)".into(),
             bound: format!("host histories depth {:?} (prefill, depth); script families {:?}", host_units(tier), fams.iter().map(|f| format!("{}={}", f.name(), f.len())).collect::<Vec<_>>()),
             exhaustive: true,
             assumptions: vec!["NaN and signed-zero keys excluded (documented exceptions of the statement: equal finite non-zero reals)".into(), "table values are logged by their length in the script read-out (tables may contain each other)".into()],
@@ -427,7 +483,7 @@ impl Check for C07 {
         }
     }
     fn units(&self, tier: Tier) -> u64 {
-        host_units(tier).len() as u64 + progcheck::units_of(families(tier))
+        host_units(tier).len() as u64 + progcheck::units_of(families(tier)) + 1
     }
     fn unit_timeout_s(&self, tier: Tier) -> u64 {
         tier.pick(60, 900)
@@ -437,11 +493,33 @@ impl Check for C07 {
         if (unit as usize) < hu.len() {
             let (prefill, depth) = hu[unit as usize];
             hist::bfs(&Sys { prefill }, &cfg(prefill, depth, tier.pick(30, 600)), out);
-        } else {
+        } else if unit - (hu.len() as u64) < progcheck::units_of(families(tier)) {
             progcheck::run_unit(&JUDGE, families(tier), tier, unit - hu.len() as u64, out)
+        } else {
+            for limit in oom_limits(tier) {
+                for mode in 0..3u64 {
+                    out.evaluations += 1;
+                    out.traces += 1;
+                    match hist::guarded(|| oom_fill(limit, mode), "oom") {
+                        Ok(()) => out.nontrivial += 1,
+                        Err(d) => {
+                            out.violation(Violation::new("C07", d.0, d.1, serde_json::json!({"seam": "oom", "limit": limit, "mode": mode})));
+                        }
+                    }
+                }
+            }
+            out.states += 1;
+            out.outcome("fill until OutOfMemory".to_string());
         }
     }
     fn replay(&self, case: &J) -> Option<Violation> {
+        if case["seam"].as_str() == Some("oom") {
+            let (limit, mode) = (case["limit"].as_u64()? as usize, case["mode"].as_u64()?);
+            return match hist::guarded(|| oom_fill(limit, mode), "oom") {
+                Ok(()) => None,
+                Err(d) => Some(Violation::new("C07", d.0, d.1, case.clone())),
+            };
+        }
         if case["seam"].as_str() == Some("host") {
             let h: Vec<Op> = serde_json::from_value(case["history"].clone()).ok()?;
             let prefill = case["prefill"].as_u64()? as usize;
